@@ -172,7 +172,8 @@ def static_font(spec, loc=None, with_layout=True):
                 sxHeight=_val(spec, nloc, 450, 502), sCapHeight=_val(spec, nloc, 700, 503))
     fb.setupPost(keepGlyphNames=not spec.get("post3"))
     if spec.get("vmtx"):
-        fb.setupVerticalMetrics({gn: (upem, 0) for gn in names})
+        # advance heights and top side bearings differ per glyph and per master (VVAR in built VFs)
+        fb.setupVerticalMetrics({gn: (_val(spec, nloc, upem - 30 * gi, 900 + gi), _val(spec, nloc, 40 + 3 * gi, 950 + gi)) for gi, gn in enumerate(names)})
         fb.setupVerticalHeader(ascent=upem // 2, descent=-upem // 2)
     font = fb.font
     if spec.get("kern"):
